@@ -691,3 +691,380 @@ Proof.
   intros c st s H Hp. unfold ok_stream.
   rewrite (nocap_of_rnone _ _ _ _ _ (inv_s c st s H) Hp). reflexivity.
 Qed.
+
+(* ------------------------------------------------------------------ waiter steps *)
+Lemma exit_kills_true : forall e, exit_kills e = true.
+Proof. intros [s|s|]; reflexivity. Qed.
+
+Lemma inv_kill : forall c st e, Inv c st -> w st = WKill e -> Inv c (do_kill st e true).
+Proof.
+  intros c st e H Hw. pose proof (inv_w _ _ H) as W. unfold WI in W. rewrite Hw in W.
+  destruct W as (Wr & Wk & We).
+  destruct H as [h1 h2 hf he hs hk hc hw].
+  constructor; st_simpl; auto.
+  - destruct (is_run (cs st)) eqn:R; cbn [is_run]; [eapply SI_run_off; eauto|rewrite R; auto].
+  - destruct (is_run (cs st)) eqn:R; cbn [is_run]; [eapply SI_run_off; eauto|rewrite R; auto].
+  - destruct (is_run (cs st)) eqn:R; [discriminate|auto].
+  - destruct (is_run (cs st)) eqn:R; [discriminate|auto].
+  - unfold WI; st_simpl. destruct We as (We1 & We2). split; [auto|split]; [|split; auto].
+    destruct (is_run (cs st)) eqn:R; [discriminate|apply is_run_false; auto].
+Qed.
+
+Lemma J1_ok_stream : forall c st o1,
+  Inv c st -> cs st = CExited -> J1 c st o1 -> rovf (st1 st) = false -> ok_stream c S1 o1.
+Proof.
+  intros c st o1 H E J Ho. unfold J1 in J. destruct (captured c S1) eqn:Hc.
+  - destruct J as (Jp & Jo & Ju & _). subst o1.
+    apply (ok_stream_some c st S1); auto.
+  - unfold ok_stream. rewrite Hc. auto.
+Qed.
+
+Lemma inv_waiter : forall c st st', Inv c st -> waiter_step c st = Some st' -> Inv c st'.
+Proof.
+  intros c st st' H Hs. unfold waiter_step in Hs.
+  pose proof (inv_w _ _ H) as W. unfold WI in W.
+  destruct (w st) eqn:Hw.
+  - (* WFlag *)
+    destruct (Z.eqb_spec (flag st) 0) as [E|E]; inversion Hs; subst st'; apply inv_set_w; auto;
+      unfold WI; st_simpl; auto.
+    destruct W as (A & B). split; [auto|split; [auto|]]. split; [|discriminate].
+    assert (flag st = reader_code (from_code (flag st))) as F.
+    { destruct (inv_flag _ _ H) as [F|[F|F]]; [contradiction| |]; rewrite F at 2;
+        rewrite from_code_reader_code; auto. }
+    apply (flag_mine_ovf c st); auto.
+  - (* WTry *)
+    destruct (is_run (cs st)) eqn:R; inversion Hs; subst st'.
+    + apply inv_set_w; auto.
+    + apply inv_set_reaped; auto. unfold WI; st_simpl. destruct W as (A & B).
+      repeat split; auto.
+      destruct (cs st) eqn:E; auto; try discriminate.
+      pose proof (inv_killed _ _ H E). congruence.
+  - (* WDeadline *)
+    destruct (deadline_passed c st) eqn:D; inversion Hs; subst st'.
+    + destruct W as (A & B). destruct H as [h1 h2 hf he hs hk hc hw].
+      constructor; st_simpl; auto.
+      * intros t Ht. inversion Ht; subst t. unfold deadline_passed in D.
+        change deadline_ge with true in D. cbv iota in D. apply Z.leb_le in D. lia.
+      * unfold WI; st_simpl. repeat split; auto. intros _. exists (clock st). reflexivity.
+    + apply inv_set_w; auto.
+  - (* WSleep *)
+    destruct (until <=? clock st); inversion Hs; subst st'. apply inv_set_w; auto.
+  - (* WKill *)
+    inversion Hs; subst st'. rewrite exit_kills_true. apply inv_kill; auto.
+  - (* WWait *)
+    destruct (is_run (cs st)) eqn:R; inversion Hs; subst st'.
+    apply inv_set_reaped; auto. unfold WI; st_simpl. destruct W as (A & B & C). auto.
+  - (* EJoin1 *)
+    destruct (joined st S1); inversion Hs; subst st'. apply inv_set_w; auto.
+  - (* EJoin2 *)
+    destruct (joined st S2); inversion Hs; subst st'. apply inv_set_w; auto.
+    unfold WI; st_simpl. destruct W as (A & B & C & (D & D')). split; auto.
+    unfold reaped_spec; st_simpl. repeat split; auto.
+    destruct e as [s|s|]; auto. split; auto.
+    destruct (D' eq_refl) as (t & Ht). exists t. split; auto. apply (inv_clock _ _ H); auto.
+  - (* OJoin1 *)
+    destruct W as (A & B & C & D).
+    pose proof (join_ok_cases st S1) as J. pose proof (inv_s c st S1 H) as Hx.
+    destruct (join_ok st S1) as [| |b|e]; inversion Hs; subst st'; apply inv_set_w; auto;
+      unfold WI; st_simpl.
+    + repeat split; auto. unfold J1. st_simpl.
+      cbn [sget] in J. rewrite (nocap_of_rnone _ _ _ _ _ Hx J). auto.
+    + destruct J as (Jp & Jf & Jb & Ju). cbn [sget] in *. subst b.
+      repeat split; auto. unfold J1; st_simpl. rewrite (cap_of_rdone _ _ _ _ _ Hx Jp).
+      repeat split; auto. intros Ho.
+      destruct (flag_cases c st S1 H) as (F & _); auto.
+      apply (ovf_done_flag c st S1); auto.
+    + destruct J as (Jp & [(Je & Jf)|(Je & Jf & Ju)]); subst e.
+      * split; [apply (flag_mine_ovf c st); auto|].
+        unfold reaped_spec; st_simpl. repeat split; auto. destruct C; congruence.
+      * split; [apply (utf8_err_spec c st S1); auto|].
+        unfold reaped_spec; st_simpl. repeat split; auto. destruct C; congruence.
+  - (* OJoin2 *)
+    destruct W as (A & B & C & D & J1').
+    pose proof (join_ok_cases st S2) as J. pose proof (inv_s c st S2 H) as Hy.
+    pose proof (inv_s c st S1 H) as Hx. cbn [sget] in Hx, Hy.
+    (* if stdout overflowed, the flag names stderr *)
+    assert (rovf (st1 st) = true -> flag st = reader_code S2) as K1.
+    { intros Ho. unfold J1 in J1'. destruct (captured c S1) eqn:Hc.
+      - destruct J1' as (_ & _ & _ & F). auto.
+      - rewrite (rovf_nocap _ _ _ _ _ Hx Hc) in Ho. discriminate. }
+    destruct (join_ok st S2) as [| |b|e]; inversion Hs; subst st'; apply inv_set_w; auto;
+      unfold WI; st_simpl.
+    + (* stderr not captured *)
+      cbn [sget] in J.
+      assert (rovf (st1 st) = false) as O1.
+      { destruct (rovf (st1 st)) eqn:Ho; auto. pose proof (K1 eq_refl) as F.
+        destruct (si_flag_mine _ _ _ _ _ Hy F) as (_ & [P|P]); congruence. }
+      assert (cs st = CExited) as E.
+      { destruct C as [E|E]; auto. exfalso.
+        destruct (inv_sigpipe _ _ H E) as (s0 & Q1 & Q2). destruct s0; cbn [sget] in *; congruence. }
+      split.
+      * cbn [result_spec]. rewrite D, E. repeat split; auto.
+        -- apply (J1_ok_stream c st); auto.
+        -- apply (ok_stream_none c st S2); auto.
+      * unfold reaped_spec; st_simpl. repeat split; auto. rewrite E; discriminate.
+    + destruct J as (Jp & Jf & Jb & Ju). cbn [sget] in *. subst b.
+      assert (rovf (st1 st) = false) as O1.
+      { destruct (rovf (st1 st)) eqn:Ho; auto. pose proof (K1 eq_refl). congruence. }
+      assert (rovf (st2 st) = false) as O2.
+      { destruct (rovf (st2 st)) eqn:Ho; auto. exfalso.
+        assert (flag st <> 0) as Hnz by (apply (ovf_done_flag c st S2); auto).
+        destruct (flag_cases c st S2 H Hnz Jf) as (_ & Q). cbn [other sget] in Q. congruence. }
+      assert (cs st = CExited) as E.
+      { destruct C as [E|E]; auto. exfalso.
+        destruct (inv_sigpipe _ _ H E) as (s0 & Q1 & Q2). destruct s0; cbn [sget] in *; congruence. }
+      split.
+      * cbn [result_spec]. rewrite D, E. repeat split; auto.
+        -- apply (J1_ok_stream c st); auto.
+        -- apply (ok_stream_some c st S2); auto.
+      * unfold reaped_spec; st_simpl. repeat split; auto. rewrite E; discriminate.
+    + destruct J as (Jp & [(Je & Jf)|(Je & Jf & Ju)]); subst e.
+      * split; [apply (flag_mine_ovf c st); auto|].
+        unfold reaped_spec; st_simpl. repeat split; auto. destruct C; congruence.
+      * split; [apply (utf8_err_spec c st S2); auto|].
+        unfold reaped_spec; st_simpl. repeat split; auto. destruct C; congruence.
+  - discriminate.
+Qed.
+
+(* ------------------------------------------------------------------ main theorems *)
+Lemma step_inv : forall c st ch st', Inv c st -> step c st ch = Some st' -> Inv c st'.
+Proof.
+  intros c st ch st' H Hs. destruct ch as [|a|s k|]; cbn [step] in Hs.
+  - inversion Hs; subst st'. apply inv_tick; auto.
+  - eapply inv_child; eauto.
+  - eapply inv_reader; eauto.
+  - eapply inv_waiter; eauto.
+Qed.
+
+Lemma reachable_inv : forall c st, cfg_ok c -> reachable c st -> Inv c st.
+Proof.
+  intros c st Hc R. induction R.
+  - apply Inv_init; auto.
+  - eapply step_inv; eauto.
+Qed.
+
+Lemma run_reachable : forall c sched st, reachable c st -> reachable c (run c sched st).
+Proof.
+  intros c sched. induction sched as [|ch tl IH]; intros st R; cbn [run fold_left]; auto.
+  apply IH. unfold step_skip. destruct (step c st ch) eqn:E; auto.
+  eapply reach_step; eauto.
+Qed.
+
+Lemma reachable_is_run : forall c st, reachable c st -> exists sched, st = run c sched (init c).
+Proof.
+  intros c st R. induction R.
+  - exists []. reflexivity.
+  - destruct IHR as (sched & E). exists (sched ++ [ch]).
+    unfold run. rewrite fold_left_app. cbn [fold_left]. fold (run c sched (init c)). rewrite <- E.
+    unfold step_skip. rewrite H. reflexivity.
+Qed.
+
+(* FULL STATEMENT (proved): for every configuration, every schedule — every interleaving of
+   child, readers, waiter and clock, every split of reads and writes, every reaction of the child
+   to a closed pipe — if the waiter has returned r then r satisfies result_spec and the child is
+   reaped (reaped_spec). *)
+Lemma capture_complete_or_error_lemma : forall c sched r,
+  cfg_ok c ->
+  w (run c sched (init c)) = WDone r ->
+  result_spec c r /\ reaped_spec c (run c sched (init c)) r.
+Proof.
+  intros c sched r Hc Hw.
+  pose proof (reachable_inv c _ Hc (run_reachable c sched _ (reach_init c))) as H.
+  pose proof (inv_w _ _ H) as W. unfold WI in W. rewrite Hw in W. exact W.
+Qed.
+
+Lemma capture_reachable_lemma : forall c st r,
+  cfg_ok c -> reachable c st -> w st = WDone r -> result_spec c r /\ reaped_spec c st r.
+Proof.
+  intros c st r Hc R Hw. pose proof (reachable_inv c _ Hc R) as H.
+  pose proof (inv_w _ _ H) as W. unfold WI in W. rewrite Hw in W. exact W.
+Qed.
+
+Lemma child_reaped_lemma : forall c sched r,
+  cfg_ok c -> w (run c sched (init c)) = WDone r ->
+  let st := run c sched (init c) in
+  reaped st = true /\ cs st <> CRun /\
+  (match r with ROk _ _ _ => cs st = CExited /\ kill_sent st = false | _ => True end) /\
+  (r = RErr ETimeout -> kill_sent st = true) /\
+  (kill_sent st = true \/ cs st = CExited \/ cs st = CSigpipe).
+Proof.
+  intros c sched r Hc Hw st.
+  destruct (capture_complete_or_error_lemma c sched r Hc Hw) as (_ & A & B & C & D).
+  fold st in A, B, C, D. repeat split; auto.
+  - destruct r as [o1 o2 code|e]; auto.
+  - intros E; subst r. destruct D; auto.
+Qed.
+
+(* the corollaries in the words of the property *)
+Lemma never_truncated_lemma : forall c sched o1 o2 code s,
+  cfg_ok c -> w (run c sched (init c)) = WDone (ROk o1 o2 code) ->
+  captured c s = true ->
+  (match s with S1 => o1 | S2 => o2 end) = Some (out c s) /\
+  len (out c s) <= cap c /\ utf8_valid (out c s) = true.
+Proof.
+  intros c sched o1 o2 code s Hc Hw Hcap.
+  destruct (capture_complete_or_error_lemma c sched _ Hc Hw) as ((_ & A & B) & _).
+  unfold ok_stream in A, B. destruct s; rewrite Hcap in *; auto.
+Qed.
+
+Lemma uncaptured_is_null_lemma : forall c sched o1 o2 code s,
+  cfg_ok c -> w (run c sched (init c)) = WDone (ROk o1 o2 code) ->
+  captured c s = false -> (match s with S1 => o1 | S2 => o2 end) = None.
+Proof.
+  intros c sched o1 o2 code s Hc Hw Hcap.
+  destruct (capture_complete_or_error_lemma c sched _ Hc Hw) as ((_ & A & B) & _).
+  unfold ok_stream in A, B. destruct s; rewrite Hcap in *; auto.
+Qed.
+
+Lemma over_limit_is_error_lemma : forall c sched r s,
+  cfg_ok c -> w (run c sched (init c)) = WDone r ->
+  captured c s = true -> cap c < len (out c s) -> exists e, r = RErr e.
+Proof.
+  intros c sched r s Hc Hw Hcap Hlen. destruct r as [o1 o2 code|e]; eauto.
+  destruct (never_truncated_lemma c sched o1 o2 code s Hc Hw Hcap) as (_ & A & _). lia.
+Qed.
+
+Lemma invalid_utf8_is_error_lemma : forall c sched r s,
+  cfg_ok c -> w (run c sched (init c)) = WDone r ->
+  captured c s = true -> utf8_valid (out c s) = false -> exists e, r = RErr e.
+Proof.
+  intros c sched r s Hc Hw Hcap Hu. destruct r as [o1 o2 code|e]; eauto.
+  destruct (never_truncated_lemma c sched o1 o2 code s Hc Hw Hcap) as (_ & _ & A). congruence.
+Qed.
+
+(* an error names a condition that really holds; the only imprecise case is InvalidUtf8 s for a
+   child whose s-output is valid: then the OTHER stream exceeded its limit (see
+   misattributed_utf8_reachable below) *)
+Lemma error_is_justified_lemma : forall c sched e,
+  cfg_ok c -> w (run c sched (init c)) = WDone (RErr e) ->
+  match e with
+  | EOLE s => captured c s = true /\ cap c < len (out c s)
+  | EUtf8 s => captured c s = true /\
+               (utf8_valid (out c s) = false \/
+                (captured c (other s) = true /\ cap c < len (out c (other s))))
+  | ETimeout => exists t, g_tmo (run c sched (init c)) = Some t /\ timeout c <= t /\
+                          t <= clock (run c sched (init c))
+  end.
+Proof.
+  intros c sched e Hc Hw.
+  destruct (capture_complete_or_error_lemma c sched _ Hc Hw) as (A & (_ & _ & _ & B)).
+  destruct e as [s|s|]; cbn [result_spec] in A; auto. destruct B; auto.
+Qed.
+
+(* the executable judgement used by the model executable is implied by the theorem *)
+Lemma opt_eqb_refl : forall o, opt_eqb o o = true.
+Proof. intros [x|]; cbn; auto. destruct (list_eq_dec Z.eq_dec x x); auto. Qed.
+
+Lemma outcome_ok_complete_lemma : forall c sched r,
+  cfg_ok c -> w (run c sched (init c)) = WDone r -> outcome_ok c r = true.
+Proof.
+  intros c sched r Hc Hw.
+  destruct (capture_complete_or_error_lemma c sched r Hc Hw) as (A & _).
+  destruct r as [o1 o2 code|[s|s|]]; cbn [result_spec outcome_ok] in *.
+  - destruct A as (A1 & A2 & A3). subst code. rewrite Z.eqb_refl. cbn [andb].
+    assert (forall s o, ok_stream c s o -> ok_stream_b c s o = true) as K.
+    { intros s o. unfold ok_stream, ok_stream_b. destruct (captured c s).
+      - intros (E1 & E2 & E3). subst o. rewrite opt_eqb_refl, E3.
+        apply Z.leb_le in E2. rewrite E2. reflexivity.
+      - intros E; subst o. reflexivity. }
+    rewrite (K S1 o1 A2), (K S2 o2 A3). reflexivity.
+  - destruct A as (A1 & A2). rewrite A1. apply Z.ltb_lt in A2. rewrite A2. reflexivity.
+  - destruct A as (A1 & [A2|(A2 & A3)]); rewrite A1; cbn [andb].
+    + rewrite A2. reflexivity.
+    + rewrite A2. apply Z.ltb_lt in A3. rewrite A3. apply orb_true_r.
+  - reflexivity.
+Qed.
+
+(* ------------------------------------------------------------------ error exits are final *)
+Definition pending (x : wpc) : option perr :=
+  match x with
+  | WKill e | WWait e | EJoin1 e | EJoin2 e | WDone (RErr e) => Some e
+  | _ => None
+  end.
+
+Lemma pending_step : forall c st ch st' e,
+  step c st ch = Some st' -> pending (w st) = Some e -> pending (w st') = Some e.
+Proof.
+  intros c st ch st' e Hs Hp. destruct ch as [|a|s k|]; cbn [step] in Hs.
+  - inversion Hs; subst st'. exact Hp.
+  - unfold child_step in Hs. destruct (negb (is_run (cs st))); [discriminate|].
+    destruct a as [s k|s die|].
+    + destruct ((1 <=? Z.of_nat k) && (Z.of_nat k <=? len (rem (sget st s)))); [|discriminate].
+      destruct (captured c s).
+      * destruct (rclosed (sget st s)); [discriminate|].
+        destruct (Z.of_nat k <=? pcap c - len (pipe (sget st s))); [|discriminate].
+        inversion Hs; subst st'. destruct s; exact Hp.
+      * inversion Hs; subst st'. destruct s; exact Hp.
+    + destruct (captured c s && rclosed (sget st s) && negb (nil_b (rem (sget st s)))); [|discriminate].
+      destruct die; inversion Hs; subst st'; [exact Hp | destruct s; exact Hp].
+    + destruct (nil_b (rem (st1 st)) && nil_b (rem (st2 st))); [|discriminate].
+      inversion Hs; subst st'. exact Hp.
+  - unfold reader_step in Hs. destruct (r_pc (sget st s)); try discriminate.
+    + destruct (nil_b (pipe (sget st s))).
+      * destruct (is_run (cs st)); [discriminate|]. inversion Hs; subst st'. destruct s; exact Hp.
+      * destruct ((1 <=? Z.of_nat k) && (Z.of_nat k <=? Z.min read_chunk (len (pipe (sget st s)))));
+          [|discriminate].
+        destruct (overflows c (len (rbuf (sget st s))) (Z.of_nat k));
+          inversion Hs; subst st'; destruct s; exact Hp.
+    + inversion Hs; subst st'. destruct s; exact Hp.
+    + inversion Hs; subst st'. destruct s; exact Hp.
+  - unfold waiter_step in Hs. destruct (w st) eqn:Hw; cbn [pending] in Hp; try discriminate.
+    + inversion Hp; subst e0. inversion Hs; subst st'. reflexivity.
+    + inversion Hp; subst e0. destruct (is_run (cs st)); inversion Hs; subst st'. reflexivity.
+    + inversion Hp; subst e0. destruct (joined st S1); inversion Hs; subst st'. reflexivity.
+    + inversion Hp; subst e0. destruct (joined st S2); inversion Hs; subst st'. reflexivity.
+Qed.
+
+Lemma pending_run : forall c sched st e,
+  pending (w st) = Some e -> pending (w (run c sched st)) = Some e.
+Proof.
+  intros c sched. induction sched as [|ch tl IH]; intros st e Hp; cbn [run fold_left]; auto.
+  apply IH. unfold step_skip. destruct (step c st ch) eqn:E; auto.
+  eapply pending_step; eauto.
+Qed.
+
+Lemma pending_done : forall x e r, pending x = Some e -> x = WDone r -> r = RErr e.
+Proof. intros x e r Hp E; subst x. cbn in Hp. destruct r; congruence. Qed.
+
+(* the deadline test firing (clock >= timeout while try_wait just said "still running") fixes
+   the outcome: whatever happens next, the run can only end in Err Timeout, after a kill *)
+Lemma deadline_forces_timeout_lemma : forall c st,
+  w st = WDeadline -> timeout c <= clock st ->
+  exists st', step c st Waiter = Some st' /\
+    forall sched r, w (run c sched st') = WDone r -> r = RErr ETimeout.
+Proof.
+  intros c st Hw Ht. cbn [step]. unfold waiter_step. rewrite Hw.
+  unfold deadline_passed. change deadline_ge with true. cbv iota.
+  apply Z.leb_le in Ht. rewrite Ht. eexists. split; [reflexivity|].
+  intros sched r Hr. eapply pending_done; [|exact Hr]. apply pending_run. reflexivity.
+Qed.
+
+(* the waiter seeing the flag set fixes the outcome as well *)
+Lemma flag_seen_forces_limit_error_lemma : forall c st,
+  w st = WFlag -> flag st <> 0 ->
+  exists st', step c st Waiter = Some st' /\
+    forall sched r, w (run c sched st') = WDone r -> r = RErr (EOLE (from_code (flag st))).
+Proof.
+  intros c st Hw Hf. cbn [step]. unfold waiter_step. rewrite Hw.
+  destruct (Z.eqb_spec (flag st) 0); [contradiction|]. eexists. split; [reflexivity|].
+  intros sched r Hr. eapply pending_done; [|exact Hr]. apply pending_run. reflexivity.
+Qed.
+
+(* ------------------------------------------------------------------ a reachable imprecision *)
+(* Both streams exceed the limit; stderr's reader wins the compare-exchange; stdout's reader had
+   already kept a prefix that ends inside a multi-byte character; the child has exited, so the
+   waiter takes the success path, stdout's join sees flag = 2 <> 1 and validates the PREFIX:
+   Err (InvalidUtf8 stdout) although everything the child wrote to stdout is valid UTF-8.
+   The run is still an error (never Ok), but the kind names the wrong condition. *)
+Definition mis_cfg : cfg :=
+  {| pol1 := PCapture; pol2 := PCapture; cap := 4; timeout := 1000; poll := 10; pcap := 65536;
+     out1 := [226; 130; 172; 226; 130; 172]; out2 := [120; 120; 120; 120; 120]; ecode := 0 |}.
+Definition mis_sched : list choice :=
+  [Waiter; Child (CWrite S1 6); Child (CWrite S2 5); Child CExit;
+   Reader S2 5; Reader S2 0; Reader S1 4; Reader S1 2; Reader S1 0; Reader S1 0; Reader S2 0;
+   Waiter; Waiter].
+
+Lemma misattributed_utf8_reachable :
+  utf8_valid (out1 mis_cfg) = true /\
+  run_outcome mis_cfg mis_sched = Finished (RErr (EUtf8 S1)).
+Proof. split; vm_compute; reflexivity. Qed.
